@@ -17,6 +17,18 @@ Exhaustive enumeration (no sampling) of
   the *equation*).  Terms containing ``sin(c)`` are not polynomial in the state: for them the
   determining set is only a list of 175..1 789 well spread data points (stated in the outcome class).
 
+* part "vector states": ``PDE`` instances on one ``VectorField`` or a collection of two (``VPROGS``): the product
+  operators of the expression grammar with two *different* operands - ``tensor_divergence(outer(u, v))``,
+  ``dot(outer(u, v), u)``, ``dot(v, outer(u, v))``, ``dot(u, v)*u``, ``outer(u, gradient(divergence(u)))`` - and
+  ``vector_laplace`` / ``gradient(divergence(.))``, on 2-d, 3-d Cartesian and cylindrical grids x {default,
+  inhomogeneous general condition, ``bc_ops`` for one operator}.  The rates are polynomials of degree <= 3: the
+  complete determining set where it is affordable (<= 2 000 points quick / 20 000 thorough; degree-2 set for the
+  bilinear program), otherwise ALL points with support <= 2 and entries in {0..3} (this pins every monomial in at
+  most two variables, e.g. every entry of an outer product) + the generic states for the monomials in three
+  variables (stated in the outcome class).  Routes: ``evolution_rate`` (numpy einsum), the numba rhs (mode I and a
+  really compiled subset in mode J - the jitted ``outer`` / ``dot`` overloads exist only there) and a reference
+  written with ``np.einsum`` and the differential operators of the field classes.
+
 Routes
   R1  ``eq.evolution_rate(state, t).data``
   R2  ``eq.make_pde_rhs(state, backend=b)(state.data, t)`` for b in {numpy, numba}.  Mode I: the numba
@@ -1043,10 +1055,261 @@ def pde_case(case):
 
 
 # ----------------------------------------------------------------------------------------------
+# vector states: product operators (outer, dot) with two DIFFERENT operands
+# ----------------------------------------------------------------------------------------------
+
+# program -> rhs, degree of the rate as a polynomial of the state, differential operators per equation with the
+# rank of their operand, the (equation, operator) that receives its own condition in the ``ops`` variant.
+# Every product has two different operands (u and v, or u and grad div u), so that a transposed or
+# swapped product is visible; ``outer(p, p)`` would be symmetric.
+VPROGS = {
+    "P1": {"rhs": {"u": "tensor_divergence(outer(u, v))", "v": "tensor_divergence(outer(v, u)) - dot(u, v)*v"}, "deg": 3,
+           "ops": {"u": {"tensor_divergence": 2}, "v": {"tensor_divergence": 2}}, "special": ("u", "tensor_divergence")},
+    "P2": {"rhs": {"u": "dot(outer(u, v), u) + t*u", "v": "vector_laplace(v) + dot(u, v)*u"}, "deg": 3,
+           "ops": {"u": {}, "v": {"vector_laplace": 1}}, "special": ("v", "vector_laplace")},
+    "P3": {"rhs": {"u": "vector_laplace(u) - dot(u, v)*u", "v": "gradient(divergence(v)) + dot(v, outer(u, v))"}, "deg": 3,
+           "ops": {"u": {"vector_laplace": 1}, "v": {"divergence": 1, "gradient": 0}}, "special": ("u", "vector_laplace")},
+    "Q1": {"rhs": {"u": "tensor_divergence(outer(u, gradient(divergence(u))))"}, "deg": 2,
+           "ops": {"u": {"tensor_divergence": 2, "divergence": 1, "gradient": 0}}, "special": ("u", "tensor_divergence")},
+    "Q2": {"rhs": {"u": "dot(outer(u, gradient(divergence(u))), u)"}, "deg": 3,
+           "ops": {"u": {"divergence": 1, "gradient": 0}}, "special": ("u", "divergence")},
+    "Q3": {"rhs": {"u": "vector_laplace(u) + gradient(divergence(u)) - dot(u, u)*u + t*u"}, "deg": 3,
+           "ops": {"u": {"vector_laplace": 1, "divergence": 1, "gradient": 0}}, "special": ("u", "vector_laplace")},
+}
+VVARIANTS = ["default", "general", "ops"]
+# family -> grid per number of vector fields
+VGRIDS_QUICK = {
+    "2d": {1: ["cart", [[0, 1], [-1, 3]], [2, 2], [True, False]], 2: ["cart", [[0, 1], [-1, 3]], [2, 2], [True, False]]},
+    "3d": {1: ["cart", [[0, 1], [0, 2], [0, 1.5]], [2, 2, 1], [False, True, True]],
+           2: ["cart", [[0, 1], [0, 2], [0, 1.5]], [2, 2, 1], [False, True, True]]},
+    "cylindrical": {1: ["cyl", 2, [0, 1], [2, 2], False], 2: None},
+}
+VGRIDS_THOROUGH = {
+    "2d": {1: ["cart", [[0, 1.5], [-1, 3]], [3, 2], [True, False]], 2: ["cart", [[0, 1], [-1, 3]], [2, 2], [True, False]]},
+    "3d": {1: ["cart", [[0, 1], [0, 2], [0, 1.5]], [2, 2, 2], [False, True, False]],
+           2: ["cart", [[0, 1], [0, 2], [0, 1.5]], [2, 2, 1], [False, True, True]]},
+    "cylindrical": {1: ["cyl", 2, [0, 1], [2, 2], False], 2: ["cyl", 2, [0, 1], [2, 2], False]},
+    "2d#yx": {1: ["cart", [[0, 2], [0, 1.5]], [2, 2], [False, True]], 2: None},
+}
+V_FULL_LIMIT = {"quick": 2000, "thorough": 20000}  # complete degree-3 set if it has at most this many points
+
+
+def support_points(np, M, support, maxval):
+    """all points of R^M with at most ``support`` non-zero entries from {1..maxval}, simplest first"""
+    pts = [np.zeros(M)]
+    for k in range(1, support + 1):
+        for pos in itertools.combinations(range(M), k):
+            for vals in itertools.product(range(1, maxval + 1), repeat=k):
+                q = np.zeros(M)
+                q[list(pos)] = vals
+                pts.append(q)
+    return pts
+
+
+def vector_reference(np, prog, grid, data, bc, t, NL, ND):
+    """the right-hand sides of VPROGS written with np.einsum and the differential operators of the field
+    classes; ``data[var]`` has shape (dim, *grid.shape); returns (rate, magnitude of terms and intermediates)"""
+    from pde import ScalarField, Tensor2Field, VectorField
+
+    n = lambda a: _nrm(np, a)  # noqa: E731
+    outer = lambda a, b: np.einsum("i...,j...->ij...", a, b)  # noqa: E731
+    dot = lambda a, b: np.einsum("i...,i...->...", a, b)  # noqa: E731
+    tdiv = lambda ev, T: Tensor2Field(grid, T).divergence(bc(ev, "tensor_divergence")).data  # noqa: E731
+    vlap = lambda ev, a: VectorField(grid, a).laplace(bc(ev, "vector_laplace")).data  # noqa: E731
+
+    def graddiv(ev, a):
+        d = VectorField(grid, a).divergence(bc(ev, "divergence")).data
+        return ScalarField(grid, d).gradient(bc(ev, "gradient")).data, n(d)
+
+    u = data["u"]
+    if prog == "P1":
+        v = data["v"]
+        ouv, ovu = outer(u, v), outer(v, u)
+        r = [tdiv("u", ouv), tdiv("v", ovu) - dot(u, v) * v]
+        mag = n(r[0]) + n(r[1]) + ND * (n(ouv) + 2) + n(u) * n(v) ** 2
+    elif prog == "P2":
+        v = data["v"]
+        lv = vlap("v", v)
+        r = [np.einsum("ij...,j...->i...", outer(u, v), u) + t * u, lv + dot(u, v) * u]
+        mag = n(u) ** 2 * n(v) + abs(t) * n(u) + n(lv) + NL * (n(v) + 2)
+    elif prog == "P3":
+        v = data["v"]
+        lu = vlap("u", u)
+        w, md = graddiv("v", v)
+        r = [lu - dot(u, v) * u, w + np.einsum("i...,ij...->j...", v, outer(u, v))]
+        mag = n(lu) + NL * (n(u) + 2) + n(u) ** 2 * n(v) + n(w) + ND * (md + 2) + n(u) * n(v) ** 2
+    elif prog == "Q1":
+        w, md = graddiv("u", u)
+        o = outer(u, w)
+        r = [tdiv("u", o)]
+        mag = n(r[0]) + ND * (n(o) + 2) + n(u) * ND * (md + 2)
+    elif prog == "Q2":
+        w, md = graddiv("u", u)
+        r = [np.einsum("ij...,j...->i...", outer(u, w), u)]
+        mag = n(u) ** 2 * (n(w) + ND * (md + 2))
+    elif prog == "Q3":
+        lu = vlap("u", u)
+        w, md = graddiv("u", u)
+        r = [lu + w - dot(u, u) * u + t * u]
+        mag = n(lu) + NL * (n(u) + 2) + n(w) + ND * (md + 2) + n(u) ** 3 + abs(t) * n(u)
+    else:
+        raise ValueError(prog)
+    return (r[0] if len(r) == 1 else np.concatenate(r)), mag
+
+
+def vector_case(case):
+    """one (vector program, grid, BC variant): evolution_rate vs compiled numba rhs vs einsum/field reference"""
+    import numpy as np
+    from pde import PDE, FieldCollection, VectorField
+
+    from mc import core
+
+    prog, spec, variant = case["vprog"], case["grid"], case["variant"]
+    info = VPROGS[prog]
+    only = case.get("only")
+    geo = geometry(spec)
+    grid = make_grid(spec)
+    _clear_operator_cache()
+    variables = list(info["rhs"])
+    nf, dim = len(variables), geo["dim"]
+    ncell = int(np.prod(geo["shape"]))
+    M = nf * dim * ncell
+    general = "default" if variant == "default" else GEN
+    ops_map = {"%s:%s" % info["special"]: SPEC_X} if variant == "ops" else {}
+
+    def build():
+        kw = {"bc": bc_spec(geo, general)[0]}
+        if ops_map:
+            kw["bc_ops"] = {k: bc_spec(geo, kind)[0] for k, kind in ops_map.items()}
+        return PDE(dict(info["rhs"]), **kw)
+
+    parsed = {}
+    for ev, ops in info["ops"].items():
+        for op, rank in ops.items():
+            kind = _resolve_kind(general, ops_map, ev, op)
+            parsed[(ev, op)] = grid.get_boundary_conditions(bc_spec(geo, kind)[1], rank=rank)
+
+    def mkstate(p):
+        d = p.reshape((nf, dim) + tuple(geo["shape"]))
+        fields = [VectorField(grid, d[i]) for i in range(nf)]
+        return fields[0] if nf == 1 else FieldCollection(fields)
+
+    eq, eqn = build(), build()
+    state0 = mkstate(np.zeros(M))
+    rhs_numba = eqn.make_pde_rhs(state0, backend="numba")
+    NL = 2 * sum(4 / d**2 for d in geo["dx"])
+    ND = 6 * sum(1 / d for d in geo["dx"])
+    tier_limit = V_FULL_LIMIT["thorough" if case.get("thorough") else "quick"]
+    # states: complete determining set of the degree of the program if affordable, otherwise all points with
+    # support <= 2 and entries in {0..3} (pins every monomial in at most two variables) + the generic states
+    if only is not None:
+        states, complete = [(only.get("label", "replay"), np.array(only["state"], dtype=float))], None
+    else:
+        deg = info["deg"]
+        if deg <= 2:
+            det, complete = support_points(np, M, 2, 2), True
+        elif n_points(M) <= tier_limit:
+            det, complete = determining_points(np, M), True
+        else:
+            det, complete = support_points(np, M, 2, 3), False
+        if case.get("reduced"):
+            stride = max(1, len(det) // 60)
+            det = [det[0]] + det[1 + int(case.get("seed", 0)) % stride :: stride]
+        states = [(f"det{i}", q) for i, q in enumerate(det)]
+        states += [(f"generic{i}", q) for i, q in enumerate(generic_points(np, M, case.get("seed", 0)))]
+    famsig = f"PDEvec|{prog}|{variant}"
+    viol, seen, n = [], set(), 0
+
+    def bad(clause, label, p, t, got, exp, tol):
+        sig = f"{famsig}|{clause}"
+        if sig in seen:
+            return
+        seen.add(sig)
+        c2 = {k: v for k, v in case.items() if k != "only"}
+        c2["only"] = {"t": t, "state": [float(x) for x in p], "label": label}
+        with np.errstate(all="ignore"):
+            diff = np.abs(np.asarray(got, dtype=float) - exp) if np.shape(got) == exp.shape else np.array([np.inf])
+        viol.append({
+            "sig": sig,
+            "msg": f"PDE({info['rhs']}) on {grid_name(spec)} ({nf} vector field(s)) bc={general} bc_ops={ops_map} t={t} "
+                   f"state[{label}] (flattened (field, component, cell))={[float(x) for x in p]}: {clause}: "
+                   f"max diff {float(np.nanmax(diff)):.3g} (tolerance {tol:.3g})",
+            "detail": {"got": np.asarray(got, dtype=float).tolist(), "expected": np.asarray(exp).tolist(),
+                       "bc": repr(bc_spec(geo, general)[0]), "bc_ops": {k: repr(bc_spec(geo, v)[0]) for k, v in ops_map.items()}},
+            "case": c2,
+            "fn": "checks.c10:vector_case",
+        })
+
+    def close(got, exp, tol):
+        got = np.asarray(got)
+        if got.shape != exp.shape:
+            return False
+        with np.errstate(all="ignore"):
+            return bool(np.all(np.abs(got - exp) <= tol))
+
+    times = TIMES if only is None else [only["t"]]
+    for t in times:
+        for label, p in states:
+            state = mkstate(p)
+            d = p.reshape((nf, dim) + tuple(geo["shape"]))
+            data = {v: d[i] for i, v in enumerate(variables)}
+            ref, mag = vector_reference(np, prog, grid, data, lambda ev, op: parsed[(ev, op)], t, NL, ND)
+            r1 = np.array(eq.evolution_rate(state.copy(), t).data)
+            val = rhs_numba(state.data.copy(), t)
+            n += 3
+            tol = 1e-11 * max(1.0, mag, _nrm(np, r1))
+            if not close(r1, ref, tol):
+                bad("evolution_rate differs from the einsum / field-method reference", label, p, t, r1, ref, tol)
+            if not close(val, r1, tol):
+                bad("numba rhs differs from evolution_rate", label, p, t, val, r1, tol)
+    out = ("replay" if complete is None else
+           f"degree-{info['deg']} determining set complete" if complete else
+           "support <= 2 points + generic states (monomials in three variables only on the generic states)")
+    return {
+        "v": viol[:4],
+        "n": n,
+        "keys": [f"{prog}|{grid_name(spec)}|{variant}|t={t}" for t in times],
+        "outs": [out, f"jit={core.mode() == 'J'}"],
+    }
+
+
+def vector_cases(vgrids, seed, tier):
+    cases = []
+    for fam, by_nf in vgrids.items():
+        for prog, info in VPROGS.items():
+            spec = by_nf[len(info["rhs"])]
+            if spec is None:
+                continue
+            for var in VVARIANTS:
+                cases.append({"vprog": prog, "fam": fam, "grid": spec, "variant": var, "seed": seed,
+                              "thorough": tier == "thorough"})
+    return cases
+
+
+def vector_jit_cases(vgrids, seed, tier):
+    """really compiled vector programs (a two-field compile costs 20-60 s: few in quick)"""
+    if tier == "quick":
+        # measured CPU per compiled case: P1 (two vector fields) 65 s, Q1 33 s, Q2 24 s, Q3 34 s; P2, P3 and the 3-d
+        # grids (60-150 s each) are compiled in the thorough tier only
+        sel = [("P1", "2d", "default"), ("Q1", "2d", "general"), ("Q2", "cylindrical", "default"), ("Q3", "2d", "ops")]
+    else:
+        sel = [(p_, f, VVARIANTS[(i + j) % 3]) for i, p_ in enumerate(VPROGS) for j, f in enumerate(["2d", "3d", "cylindrical"])]
+    cases = []
+    for prog, fam, var in sel:
+        spec = vgrids[fam][len(VPROGS[prog]["rhs"])]
+        if spec is not None:
+            cases.append({"vprog": prog, "fam": fam, "grid": spec, "variant": var, "seed": seed, "reduced": True,
+                          "thorough": tier == "thorough"})
+    return cases
+
+
+# ----------------------------------------------------------------------------------------------
 
 
 def compiled_case(case):
-    """mode J: dispatch to the two workers (violations carry the worker that replays them)"""
+    """mode J: dispatch to the workers (violations carry the worker that replays them)"""
+    if "vprog" in case:
+        return vector_case(case)
     return class_case(case) if "cls" in case else pde_case(case)
 
 
@@ -1171,17 +1434,26 @@ def main(run):
     pcases.sort(key=lambda c: -n_points((2 if c["kind"] == "two" else 1) * _ncell(c["grid"])))
     if not only or "grammar" in only:
         run.explore("checks.c10:pde_case", pcases, mode="I", part="PDE grammar (interpreted kernels)", chunksize=2, limit=1800)
+    vgrids = VGRIDS_THOROUGH if tier == "thorough" else VGRIDS_QUICK
+    vcases = vector_cases(vgrids, run.seed, tier)
+    vcases.sort(key=lambda c: -len(VPROGS[c["vprog"]]["rhs"]) * geometry(c["grid"])["dim"] * _ncell(c["grid"]))
+    if not only or "vector" in only:
+        run.explore("checks.c10:vector_case", vcases, mode="I", part="vector states (interpreted kernels)", chunksize=1,
+                    limit=1800)
     jc, jp = jit_cases(grids, pgrids, run.seed, tier)
+    jv = vector_jit_cases(vgrids, run.seed, tier)
     if not only or "jit" in only:
-        # one pool round for both kinds of compiled cases; the slow grammar programs first
-        run.explore("checks.c10:compiled_case", jp + jc, mode="J", part="compiled rates (classes + grammar)", chunksize=1,
-                    limit=2400)
+        # one pool round for all kinds of compiled cases; the slow ones (two vector fields, grammar programs) first
+        jv.sort(key=lambda c: -len(VPROGS[c["vprog"]]["rhs"]))
+        run.explore("checks.c10:compiled_case", jv + jp + jc, mode="J", part="compiled rates (classes + grammar + vector)",
+                    chunksize=1, limit=3600)
     run.notes["state_space"] = {
         "determining_set": "all points with support <= 3 and entries in {0,1,2,3}",
         "points_by_degrees_of_freedom": {M: n_points(M) for M in (3, 4, 5, 6, 8)},
         "generic_states_per_case": 3,
         "times": TIMES,
-        "class_cases": len(ccases), "grammar_cases": len(pcases), "compiled_cases": len(jc) + len(jp),
+        "class_cases": len(ccases), "grammar_cases": len(pcases), "vector_cases": len(vcases),
+        "compiled_cases": len(jc) + len(jp) + len(jv),
     }
     run.notes["observations"] = [
         "KPZInterfacePDE: the class docstring gives the non-linear term as (lambda/2)|grad h|^2, whereas evolution_rate, "
@@ -1211,7 +1483,9 @@ def main(run):
         "curvature, partial, time dependent; 12 pairs of different conditions for the two operators of CahnHilliard/"
         "KuramotoSivashinsky/SwiftHohenberg) x t in {0, 1.3} x (degree-3 determining set + 3 generic states): evolution_rate vs "
         "make_pde_rhs[numpy, numba] vs PDE(expression)[evolution_rate, numpy, numba] vs field-API reference; every grammar program "
-        "(terms and pairs, two coupled fields) x grid x BC/bc_ops variant likewise; really compiled covering subset; "
+        "(terms and pairs, two coupled fields) x grid x BC/bc_ops variant likewise; 6 programs on one / two VectorFields "
+        "(outer and dot products with two different operands under tensor_divergence / dot, vector_laplace, "
+        "gradient(divergence)) x 2-d / 3-d / cylindrical grids x 3 BC variants; really compiled covering subset; "
         "distinct = distinct (class or program, parameters, grid, BC assignment, t)"
     )
 
